@@ -255,10 +255,13 @@ class TimeArray(np.ndarray, TimeInterface):
     def _convert_if_needed(self,val):
         if not hasattr(val, '_conversion_factor'):
             val = np.asarray(val)
-            if getattr(val, 'dtype', None) == np.int32:
-                # we'll overflow if val's dtype is np.int32
-                val = np.array(val, dtype=np.int64)
-            val *= self._conversion_factor
+            if issubclass(val.dtype.type, np.integer):
+                # cast to 64 bit (np.int32 would overflow) and convert to the
+                # base unit, without touching the caller's array
+                val = val.astype(np.int64) * self._conversion_factor
+            else:
+                # as in the constructor: convert, round, then cast to 64 bit
+                val = (val * self._conversion_factor).round().astype(np.int64)
         return val
 
     def __add__(self, val):
